@@ -200,7 +200,7 @@ def discharge(ob, want_model=True):
     for p in ob.pc:
         s.add(p)
     s.add(z3.Not(c))
-    size = len(s.sexpr())
+    size = len(ob.pc) + 1  # number of asserted formulas (s-expression printing is exponential on shared DAGs)
     r = s.check()
     if r == z3.unsat:
         return Result(ob.name, 'proved', 'z3', time.time() - t0, kind=ob.kind, size=size)
